@@ -115,6 +115,11 @@ async def examine_message(cx, s, uid, seq, info, how, mbox):
                 # only line breaks between the blank line that ends a header
                 # block and a boundary line: a multipart's (empty) preamble
                 where = "multipart-preamble"
+            elif _has_unencodable_header(info["raw"]):
+                # the message has a header the renderer cannot fold (an encoded word cut in the
+                # middle of a multi-octet character, ...): it takes its raw fallback, which
+                # writes the stored lines with the line ends of the file
+                where = "unencodable-header-fallback"
             cx.viol(["C16"], "bare-cr-or-lf-in-literal", f"{tag}: {name} at {bad[:4]}: {lit[max(0, bad[0] - 30) : bad[0] + 12]!r}", shape=info["shape"], where=where)
             break
     r3, d3 = await fetch1(s, f"UID FETCH {uid} (RFC822 RFC822.TEXT)")
@@ -220,6 +225,22 @@ def check_from_name_roundtrip(cx, env, info, tag):
     want = (dec2047(m.group(1)), m.group(2), m.group(3))
     if got != want:
         cx.viol(["C07"], "envelope-from-differs-from-header", f"{tag}: header gives {want!r}, ENVELOPE transports {got!r} ({bytes(name) if name is not None else None!r})", field="from")
+
+
+def _has_unencodable_header(raw):
+    """Does the stored message have a header that email.policy cannot fold
+    (the mechanism of the known raw-fallback finding)?  Decided with the same
+    stdlib call the renderer uses."""
+    try:
+        m = email.message_from_bytes(raw, policy=email.policy.SMTP)
+        for h, v in m.raw_items():
+            try:
+                m.policy.fold_binary(h, v)
+            except (UnicodeEncodeError, UnicodeDecodeError):
+                return True
+    except Exception:
+        return False
+    return False
 
 
 def _same_instant(a, b):
@@ -456,7 +477,7 @@ async def script(loop, ctx):
         # one case per distinct (kind, shape)
         seen = set()
         for v in own:
-            sig = (v["kind"], (v.get("data") or {}).get("shape"), (v.get("data") or {}).get("rule"))
+            sig = (v["kind"], (v.get("data") or {}).get("shape"), (v.get("data") or {}).get("rule"), (v.get("data") or {}).get("where"), (v.get("data") or {}).get("field"))
             if sig in seen:
                 continue
             seen.add(sig)
